@@ -310,7 +310,7 @@ Definition ragged {A} (rows : list (list A)) : Prop :=
 
 Lemma rows_later_ragged k hd sep n : forall (rows : list (list (list N * list N))) w,
   w_rowidx w <> O -> w_validx w = O -> w_prev w = n -> Exists (fun x => length x <> n) rows ->
-  writer_rows k hd sep w rows = Err OutOfRange /\ save_rows k sep w rows = Terminate.
+  writer_rows k hd sep w rows = Err OutOfRange /\ save_rows k sep w rows = Err OutOfRange.
 Proof.
   induction rows as [|r rows IH]; intros w Hi Hv Hp Ex; [inversion Ex|].
   destruct (Nat.eq_dec (length r) n) as [E|NE].
@@ -332,7 +332,7 @@ Qed.
 
 Theorem ragged_rows_reported k hd sep (rows : list (list (list N * list N))) : ragged rows ->
   writer_run k hd sep rows = Err OutOfRange /\
-  (validate_separator sep = true -> csv_save k sep rows = Terminate).
+  (validate_separator sep = true -> csv_save k sep rows = Err OutOfRange).
 Proof.
   destruct rows as [|r rows]; [intros []|]. cbn [ragged]. intros Ex.
   unfold writer_run, csv_save. cbn [writer_rows save_rows].
